@@ -8,7 +8,7 @@ import re
 from sa import rex
 from sa.model import AnalysisError, access_path, unparse
 
-from .shared import calls_in, deref, dispatch_table, key, loc, server_class
+from .shared import calls_in, deref, dispatch_table, key, loc, server_class, slice_attrs
 
 TAILS = {"", "77", "90", "95", "03", "05", "08", "18", "or", "pp"}
 
@@ -244,7 +244,17 @@ def r3(ctx, R):
     for c in adds:
         facts = F.at(c) or set()
         cs = [(fa[1], fa[2]) for fa in facts if fa[0] == "cond"]
-        has_suffix = any("SRC_EXT" in t.upper() for t, p in cs)
+        def mentions_suffix(t):
+            if "SRC_EXT" in t.upper():
+                return True
+            try:
+                ex = ast.parse(t, mode="eval").body
+            except SyntaxError:
+                return False
+            # the matcher may be bound to a local first (`is_src = self.FORTRAN_SRC_EXT_REGEX.search`)
+            return any("SRC_EXT" in a.upper() for a in slice_attrs(ctx, adder, ex, ctx.m.enclosing_stmt(c)))
+
+        has_suffix = any(mentions_suffix(t) for t, p in cs)
         not_excl = any(("excl_paths" in t and ((" not in " in t and p) or (" in " in t and " not in " not in t and not p))) for t, p in cs) or ("notin" in {fa[0] for fa in facts if len(fa) > 2 and "excl_paths" in str(fa[2])})
         st = ctx.m.enclosing_stmt(c)
         if has_suffix and not_excl:
